@@ -178,8 +178,98 @@ def pre_expansion():
     return out, fingerprint(fn)
 
 
+def _can_start(parsed, ch):
+    """(may the pattern's match begin with character `ch`?, may the pattern match the empty string here?) on an sre parse tree;
+    conservative: unknown constructs count as 'may'."""
+    import re._constants as C
+
+    def in_set(items, ch):
+        neg, hit = False, False
+        for op, av in items:
+            if op is C.NEGATE:
+                neg = True
+            elif op is C.LITERAL:
+                hit = hit or av == ord(ch)
+            elif op is C.RANGE:
+                hit = hit or av[0] <= ord(ch) <= av[1]
+            elif op is C.CATEGORY:
+                hit = hit or {C.CATEGORY_SPACE: ch.isspace(), C.CATEGORY_NOT_SPACE: not ch.isspace(), C.CATEGORY_DIGIT: ch.isdigit(),
+                              C.CATEGORY_NOT_DIGIT: not ch.isdigit(), C.CATEGORY_WORD: ch.isalnum() or ch == "_",
+                              C.CATEGORY_NOT_WORD: not (ch.isalnum() or ch == "_")}.get(av, True)
+            else:
+                hit = True
+        return hit != neg
+
+    def seq(items):
+        for op, av in items:
+            if op is C.LITERAL:
+                return av == ord(ch), False
+            if op is C.NOT_LITERAL:
+                return av != ord(ch), False
+            if op is C.ANY:
+                return True, False
+            if op is C.IN:
+                return in_set(av, ch), False
+            if op is C.BRANCH:
+                res = [seq(list(b)) for b in av[1]]
+                if any(r[0] for r in res):
+                    return True, False
+                if not any(r[1] for r in res):
+                    return False, False
+                continue
+            if op is C.SUBPATTERN:
+                st, em = seq(list(av[3]))
+                if st:
+                    return True, False
+                if not em:
+                    return False, False
+                continue
+            if op in (C.MAX_REPEAT, C.MIN_REPEAT, getattr(C, "POSSESSIVE_REPEAT", None)):
+                lo, _hi, sub = av
+                st, em = seq(list(sub))
+                if st:
+                    return True, False
+                if lo > 0 and not em:
+                    return False, False
+                continue
+            if op in (C.AT, C.ASSERT, C.ASSERT_NOT):
+                continue  # zero width
+            return True, False  # unknown: may
+        return False, True
+
+    return seq(list(parsed))
+
+
+def terminal_first_chars():
+    """hypotheses `NoBlankStart` / `NoHashStart` of the text-level theorems: no terminal other than the layout terminals themselves
+    (`_NEWLINE`, `COMMENT`, the `%ignore`d blanks) may begin with a space, a tab or `#`; and the terminals that may begin with a line break
+    are reported (they are what the oracle of `TextLayout.seg` answers at a line break: `_AND` / `_OR`)."""
+    import re._parser as sre_parse
+
+    from nemoguardrails.colang.v2_x.lang.parser import ColangParser
+
+    L = ColangParser()._lark_parser
+    layout_names = set(L.ignore_tokens) | {"_NEWLINE"}
+    at_break = []
+    for t in L.terminals:
+        if t.name in layout_names:
+            continue
+        rx = t.pattern.to_regexp()
+        try:
+            parsed = sre_parse.parse(rx)
+        except Exception as e:  # noqa
+            raise TieBroken(f"colang.lark: terminal {t.name}: cannot analyse {rx!r}: {e}")
+        for ch, what in ((" ", "a space"), ("\t", "a tab"), ("#", "`#`")):
+            if _can_start(parsed, ch)[0]:
+                raise TieBroken(f"colang.lark: terminal {t.name} ({rx!r}) may begin with {what}: the text-level theorems assume that only layout terminals do")
+        if _can_start(parsed, "\n")[0] or _can_start(parsed, "\r")[0]:
+            at_break.append(t.name)
+    return sorted(at_break)
+
+
 def run():
     g = grammar_layout()
+    g["terminals_at_line_break"] = terminal_first_chars()
     exp_lines, pfp = pre_expansion()
     consts, fps = indenter_consts()
     wfp = wrapper_shape()
